@@ -47,6 +47,9 @@ func run(r *lib.Run) {
 	}
 	r.Extra("wall_s_by_part", map[string]float64{"inproc": t1.Sub(t0).Seconds(), "evict": t2.Sub(t1).Seconds(), "binary": time.Since(t2).Seconds()})
 
+	if n := headLenUnexplained.Load(); n > 0 {
+		r.CountN("lookup.ac.http-HEAD.content-length-unexplained(not-judged)", n)
+	}
 	instMu.Lock()
 	r.Extra("instance_class_matrix", instMatrix)
 	instMu.Unlock()
@@ -411,8 +414,11 @@ func evictCase(r *lib.Run, pool *lib.DirPool, id string, rng *rand.Rand) {
 	// size decides: it must be the live fillers plus what the reference map has.
 	reconcile := func(when string) {
 		probeFillers()
+		// Which entry a store pushes out is the replacement policy's business (C05), not
+		// this property's: the witness is the index size alone - it must be the live
+		// fillers plus what the reference map holds; otherwise some slot of k may be gone.
 		np, def := present()
-		if len(fillers) == 0 && (!def || t.numItems() != np) {
+		if !def || t.numItems() != np+len(fillers) {
 			loosenAll(when)
 		}
 		for _, e := range slots {
@@ -515,12 +521,17 @@ func evictCase(r *lib.Run, pool *lib.DirPool, id string, rng *rand.Rand) {
 		} else {
 			r.Count("evict.victim-survived." + victim.ns) // LRU order is C05's business
 		}
-		if oldAlive > 0 || (evicted == 1 && gone) {
-			if gone {
-				r.Count("evict.victim-evicted-others-strict")
-			}
+		// Policy-independent witness only: exactly one entry left the index and the victim
+		// is gone, hence every other slot is still there. (That an old filler survives says
+		// something about the others only under exact LRU - C05's subject - so it is counted
+		// but not used.)
+		if evicted == 1 && gone {
+			r.Count("evict.victim-evicted-others-strict")
 			r.Count("evict.others-strict")
 		} else {
+			if oldAlive > 0 {
+				r.Count("evict.lru-order-witness-only(not-used)")
+			}
 			loosenAll("no-witness")
 		}
 		// (f) every other slot must answer as before, on every front end and method.
